@@ -176,10 +176,13 @@ def _ascii_hit_position(base, e):
         rf"^<std::str::RMatchIndices<'a, P> as std::iter::Iterator>::next\(core::str::rmatch_indices\({b}, {asc}\)\)@Some\.0\.0$",
         rf"^core::str::r?find\({b}, {asc}\)@Some\.0$",
         rf"^memchr::mem(?:r)?chr\((\d+), core::str::as_bytes\({b}\)\)@Some\.0$",
+        rf"^memchr::mem(?:r)?chr\((\d+), {b}\)@Some\.0$",      # (as_bytes() is transparent in the rendering)
+        # a hit inside a PREFIX of the string (`s[..k]`) sits at the same position of the string itself
+        rf"^memchr::mem(?:r)?chr\((\d+), <std::string::String as std::ops::Index<I>>::index\({b}, std::ops::RangeTo::RangeTo\{{end: .*\}}\)\)@Some\.0$",
     ]
     for i, p in enumerate(pats):
         m = re.match(p, e)
-        if m and (i < 3 or int(m.group(1)) < 128):
+        if m and (i < 3 or int(m.group(m.lastindex or 1)) < 128):
             return True
     return False
 
@@ -233,6 +236,11 @@ def auto_discharge(s):
         callee = s.what
         if re.search(r"HashMap<.*> as std::ops::Index", callee):
             return None
+    if s.kind == "vec-op" and s.what.endswith("Vec::insert") and len(s.term["args"]) >= 2:
+        v = s.fn.expr_operand(s.term["args"][0])
+        pos = s.fn.expr_operand(s.term["args"][1])
+        if re.match(r"^core::slice::binary_search(_by|_by_key)?\(" + re.escape(v) + r"[,)]", pos) and pos.endswith("@Err.0"):
+            return "Vec::insert at the Err(slot) of a binary search on that same vector: slot <= len"
     if s.kind == "panic":
         # debug_assert / overflow checks expanded from std macros in foreign code are not in MIR of the
         # local crate; nothing automatic here
